@@ -235,7 +235,7 @@ class Site:
             if self.ns_of(title) == 6:
                 rec, where = self.image_record(title)
                 if rec is not None and where == "shared":
-                    del pages[key]["missing"]
+                    # MediaWiki's shape for a file of the shared repository: locally missing, but known
                     pages[key]["known"] = ""
                     pages[key]["imagerepository"] = "shared"
             order.append((key, pages[key], None, title))
